@@ -280,8 +280,16 @@ def linform(e, sym):
         return {nm: 1}
     if s.k == "cast":
         return linform(s.a[0], sym)
+    cc = checked(s)
+    if cc is not None and s.k != "bin" and cc[0] in ("Add", "Sub", "Mul"):
+        s = Expr("bin", [cc[1], cc[2]], op=cc[0])
     if s.k == "field" and s.x["name"] == "0" and s.a[0].k == "bin":
         s = s.a[0]
+    if s.k == "phi":
+        forms = [linform(x, sym) for x in s.a]
+        if forms and all(f is not None and f == forms[0] for f in forms):
+            return forms[0]
+        return None
     if s.k == "bin":
         op = s.x["op"].replace("WithOverflow", "")
         a, b = linform(s.a[0], sym), linform(s.a[1], sym)
@@ -362,39 +370,91 @@ def footer_write(F):
     return seq
 
 
+def slice_region(e, sym, root_pred):
+    """the byte region [start, end) of the root buffer that a (nested) slice expression denotes, as linear
+    forms: root[a..][..b] -> (a, a+b), root[a..b] -> (a, b), root[a..] -> (a, LEN)"""
+    s = e.strip()
+    if root_pred(s):
+        return {}, {"len": 1}
+    if s.k == "call" and s.x["path"].endswith("::index") or (s.k == "call" and s.x["path"].endswith("::index_mut")):
+        base = slice_region(s.a[0], sym, root_pred)
+        if base is None:
+            return None
+        s0, e0 = base
+        r = s.a[1]
+        if r.k != "agg":
+            return None
+        kind = (r.x.get("adt") or "").rsplit("::", 1)[-1]
+        fs = [linform(x, sym) for x in r.a]
+        if any(f is None for f in fs):
+            return None
+
+        def plus(a, b):
+            out = dict(a)
+            for k, v in b.items():
+                out[k] = out.get(k, 0) + v
+            return {k: v for k, v in out.items() if v != 0}
+        if kind == "RangeFrom":
+            return plus(s0, fs[0]), e0
+        if kind == "RangeTo":
+            return s0, plus(s0, fs[0])
+        if kind == "Range":
+            return plus(s0, fs[0]), plus(s0, fs[1])
+        if kind == "RangeFull":
+            return s0, e0
+        return None
+    return None
+
+
 def footer_read(F):
+    """how Block::read_from finds the footer, as regions of the decoded buffer over len = buffer.len() and
+    count = the u32 read: which bytes hold the count, which the offset table, what the payload size is"""
     b = F.body(A("block_read_from"))
     out = {}
-    # count: last 4 bytes, BE u32
+
+    def sym(x):
+        if x.k == "call" and x.x["path"].endswith("::len") and x.a and is_self_field(x.a[0], "buffer"):
+            return "len"
+        if x.k == "call" and x.x["path"].rsplit("::", 1)[-1] in ("from_be_bytes", "from_le_bytes", "from_ne_bytes") and "u32" in x.x["path"]:
+            return "count"
+        if x.k == "call" and x.x["path"].endswith("::unwrap") and x.a and any(y.k == "fn" and "u32" in y.x["path"] and "bytes" in y.x["path"] for y in x.a[0].walk()):
+            return "count"      # bytes.try_into().map(u32::from_be_bytes).unwrap()
+        return None
+    root = lambda x: is_self_field(x, "buffer")
+
+    def region_of(e):
+        idx = [x for x in e.walk() if x.k == "call" and x.x["path"].endswith("::index")]
+        regs = []
+        for ix in idx:
+            # outermost slice expressions only
+            if any(ix is not o and any(w is ix for w in o.walk()) for o in idx):
+                continue
+            r = slice_region(ix, sym, root)
+            if r is not None:
+                regs.append((lin_str(r[0]), lin_str(r[1])))
+        return tuple(sorted(set(regs)))
     um = [s for s, c, t in b.calls() if c and c["path"].rsplit("::", 1)[-1] in ("from_be_bytes", "from_le_bytes", "from_ne_bytes") and "u32" in c["path"]]
-    for s in um:
-        a = [None, Expr("fn", path=callee_of(b.at(s))["path"]), None]
-        a[0] = b.arg_exprs(s)[0]
-        if True:
-            src = a[0]
-            idx = [x for x in src.walk() if x.k == "call" and x.x["path"].endswith("::index")]
-            rngs = []
-            for ix in idx:
-                r = ix.a[1]
-                if r.k == "agg":
-                    rngs.append(((r.x.get("adt") or "").rsplit("::", 1)[-1], tuple(_sym(x) for x in r.a)))
-            out["count"] = (a[1].x["path"].rsplit("impl ", 1)[-1], tuple(reversed(rngs)))
+    fnrefs = [x for s, c, t in b.calls() for a_ in b.arg_exprs(s) for x in a_.walk() if x.k == "fn" and "u32" in x.x["path"] and x.x["path"].rsplit("::", 1)[-1] in ("from_be_bytes", "from_le_bytes", "from_ne_bytes")]
+    if um:
+        s = um[0]
+        out["count"] = (callee_of(b.at(s))["path"].rsplit("impl ", 1)[-1], region_of(b.arg_exprs(s)[0]))
+    elif fnrefs:
+        # bytes.try_into().map(u32::from_be_bytes)
+        for s, c, t in b.calls():
+            for a_ in b.arg_exprs(s):
+                if any(x is fnrefs[0] for x in a_.walk()):
+                    out["count"] = (fnrefs[0].x["path"].rsplit("impl ", 1)[-1], region_of(b.arg_exprs(s)[0]))
     ext = [s for s, c, t in calls(b, "Extend<T>>::extend") if is_self_field(b.arg_exprs(s)[0], "index_offsets")]
     if ext:
         it = b.arg_exprs(ext[0])[1]
         fns = [x.x["path"].rsplit("impl ", 1)[-1] for x in it.walk() if x.k == "fn" and "bytes" in x.x["path"]]
         cx = [x for x in it.walk() if x.k == "call" and x.x["path"].endswith("chunks_exact")]
         names = [x.x["path"].rsplit("::", 1)[-1] for x in it.walk() if x.k == "call"]
-        rngs = []
-        for ix in [x for x in it.walk() if x.k == "call" and x.x["path"].endswith("::index")]:
-            r = ix.a[1]
-            if r.k == "agg":
-                rngs.append(((r.x.get("adt") or "").rsplit("::", 1)[-1], tuple(_sym(x) for x in r.a)))
-        out["table"] = (tuple(fns), fold(cx[0].a[1]) if cx else None, "rev" in names, tuple(reversed(rngs)))
+        out["table"] = (tuple(fns), fold(cx[0].a[1]) if cx else None, "rev" in names, region_of(cx[0].a[0]) if cx else ())
     ps = [(s, st) for s, st in b.sites() if s.i is not None and st["s"] == "assign" and st["pl"]["p"] and isinstance(st["pl"]["p"][-1], dict) and st["pl"]["p"][-1].get("name") == "payload_size"]
     if ps:
         e = b._expr_of_def((ps[-1][0], "assign", ps[-1][1]["rv"]))
-        out["payload_size"] = _sym(e)
+        out["payload_size"] = lin_str(linform(e, sym))
     return out
 
 
